@@ -3,14 +3,16 @@
   handed to `VerifyDetached` / `VerifyDetachedReader`.
 
   `Props/C07.lean` states soundness for a decoded header read and signature read.
-  Here both are what the front end (`Front.readDetached`: `Wire`, else go-codec's
-  typed decoding `Codec` — map-shaped headers, a signature given as an array of
-  integers, … included) makes of the bytes.
+  Here both are what the front end (`Front.readDetached`: go-codec's typed
+  decoding `Codec` — map-shaped headers, a signature given as an array of
+  integers, … included; the spec-shaped reader `Wire` only where `Codec` says
+  unmodelled) makes of the bytes.
 
-  Statements only; proofs in Saltpack/Proofs/CodecBytes.lean, RoundTripSig.lean, WireRT.lean.
+  Statements only; proofs in Saltpack/Proofs/CodecBytes.lean, CodecBytesBridge.lean, RoundTripSig.lean, WireRT.lean.
 -/
 import Saltpack.Props.C07
 import Saltpack.Proofs.CodecBytes
+import Saltpack.Proofs.CodecBytesBridge
 
 namespace Saltpack.Props.C07
 open Saltpack Saltpack.Proofs
@@ -46,7 +48,12 @@ theorem C07_sound_or_break_bytes (P : Prims) (hP : P.Lawful) (valid : Validator)
 
 /-- failure is an error value: whatever the bytes, the verifier answers `ok k`
     or one of the model's error classes, and a missing / undecodable signature
-    object is `io.ErrUnexpectedEOF`-class or a decode error -/
+    object is "the input ended" or a decode error.  (`Err.unexpectedEOF` is the
+    model's one class for an ended input: `VerifyDetachedReader` returns the
+    decoder's RAW `io.EOF` for a missing signature object — it does not convert it
+    to `io.ErrUnexpectedEOF` as `getNextChunk` does; the two Go values are one
+    class in the model and are not told apart by the correspondence's comparison,
+    see `Front.detSig`.) -/
 theorem C07_sigread_plain_bytes (sigMsg : Bytes) (hr : HeaderRead SigHeader) (sr : Sign.SigRead)
     (h : Front.readDetached sigMsg = .ok (hr, sr)) : ∀ e, sr = .none e → e = .unexpectedEOF ∨ e = .decodeError :=
   readDetached_plain sigMsg hr sr h
@@ -59,7 +66,13 @@ theorem C07_roundtrip_bytes_front (P : Prims) (hP : P.Lawful)
     (out : Bytes) (hout : Sign.detachedWith P v signer nonce msg = .ok out) :
     Sign.verifyDetachedBytes P knownMajor kr out msg = .ok (.ok (P.sigPub signer)) := by
   obtain ⟨hr, sr, hs, hv⟩ := C07_roundtrip_bytes P hP v signer nonce msg hn kr hk out hout
-  have hrd : Front.readDetached out = .ok (hr, sr) := orCodec_of_wire hs
+  -- the bridge: on what `SignDetached` emits go-codec's typed reader gives the same read as the spec-shaped one
+  obtain ⟨hb, h, sg, hw, hc⟩ := CodecP.bridge_seal_detached P (WireSizes.of_lawful hP) v signer nonce msg out hn hout
+  rw [hs] at hw
+  injection hw with hw
+  injection hw with e1 e2
+  subst e1 e2
+  have hrd : Front.readDetached out = .ok (.ok hb h, .sig sg) := orWire_of_codec (codecDetached_of_ok hc)
   rw [sig_verifyDetachedBytes_of_read hrd, hv]
 
 /-! ## a concrete hostile byte string (kernel-evaluated)
